@@ -154,9 +154,32 @@ fn explore(ctx: &Ctx) {
     // result on the empty database, for the non-triviality rule
     let empty_db = Database::empty();
     let empty_res: Vec<Option<Vec<Row>>> = qs.iter().map(|q| reference::evaluate_rows(&empty_db, &q.ast)).collect();
+    // pre-flight on the empty database: a statement the engine rejects statically with an
+    // honest "not implemented" (or the documented "correlated scalar subquery must be
+    // aggregated") is outside the supported fragment: excluded and listed in the evidence.
+    // Any other static rejection is a violation.
+    let mut rejected: Vec<Json> = vec![];
+    let mut excluded: Vec<bool> = vec![false; qs.len()];
+    {
+        let sctx = engine::make_context(&empty_db, &ContextOptions::default()).expect("context");
+        for (i, q) in qs.iter().enumerate() {
+            if let Err(e) = engine::run_sql(&sctx, &q.sql) {
+                let honest = e.contains("This feature is not implemented") || e.contains("Correlated scalar subquery must be aggregated");
+                if honest {
+                    excluded[i] = true;
+                    rejected.push(json!({"sql": q.sql, "error": e.lines().last().unwrap_or("").chars().take(160).collect::<String>()}));
+                }
+            }
+        }
+    }
+    ctx.count("queries_rejected_statically_by_engine", rejected.len() as u64);
+    ctx.set_extra("engine_rejected_queries", json!(rejected));
     // group queries by (tables, sizes)
     let mut groups: BTreeMap<(Vec<String>, Vec<usize>), Vec<usize>> = BTreeMap::new();
     for (i, q) in qs.iter().enumerate() {
+        if excluded[i] {
+            continue;
+        }
         let mut tables = q.tables.clone();
         tables.sort();
         let sizes = sizes_for(&tables, &d, n1, n2, budget);
